@@ -150,6 +150,8 @@ struct Cfg {
     files: Vec<Vec<u8>>,
     /// log the calls on fds 0-2 without changing them
     watch: bool,
+    /// name this directory (which holds the files) on the command line instead of the files
+    arg_dir: Option<String>,
 }
 
 impl Cfg {
@@ -161,6 +163,7 @@ impl Cfg {
             stderr: StderrKind::File,
             files: Vec::new(),
             watch: false,
+            arg_dir: None,
         }
     }
 }
@@ -223,7 +226,12 @@ fn spawn_cfg(case: &Case, input: &[u8], cfg: &Cfg, paths: &[String], ctx: &mut C
         cmd.arg("--");
         for (p, d) in paths.iter().zip(cfg.files.iter()) {
             std::fs::write(p, d).map_err(|e| e.to_string())?;
-            cmd.arg(p);
+            if cfg.arg_dir.is_none() {
+                cmd.arg(p);
+            }
+        }
+        if let Some(d) = &cfg.arg_dir {
+            cmd.arg(d);
         }
     }
     match cfg.stdin {
@@ -404,6 +412,8 @@ const GO_INVALID: &[&[&str]] = &[
     &["--select", "(size . . .)=x"],
     &["--group-by=.g xx"],
     &["--split-by=((.arr)"],
+    // (marker) text output with --headers and no selection at all
+    &["--headers", "-o", "text"],
 ];
 
 impl Property for C20 {
@@ -519,6 +529,14 @@ impl Property for C20 {
                 } else {
                     GO_INVALID[rng.below(GO_INVALID.len())]
                 };
+                if bad[0] == "--headers" {
+                    case.opts.retain(|o| {
+                        !(matches!(o[0].as_str(), "--select" | "--choose" | "-c" | "-o" | "--headers" | "--utf8-strings")
+                            || o[0].starts_with("--output-style")
+                            || o[0].starts_with("--style")
+                            || o[0].starts_with("--sort-by=/"))
+                    });
+                }
                 if bad[0].starts_with("--group-by") {
                     case.opts.retain(|o| !o[0].starts_with("--group-by") && o[0] != "--merge");
                 }
@@ -588,6 +606,10 @@ impl Property for C20 {
                     });
                 }
                 case.opts.retain(|o| !o.iter().any(|t| t.contains("&file-name")));
+                if datas.len() == 1 && rng.chance(1, 2) {
+                    // the file is the only entry of a directory argument
+                    case.set("as_dir", 1);
+                }
             }
             "stdin-preset" => {
                 case.set("stdin", rng.range(1, 2) as i64);
@@ -945,10 +967,27 @@ fn check_file_fault(case: &Case, ctx: &mut Ctx) -> Option<Violation> {
         return None;
     }
     let class = classify(&case.opts);
-    let paths = ctx.fresh_paths(datas.len());
+    let as_dir = case.param("as_dir") == 1 && datas.len() == 1;
+    let dir = if as_dir { ctx.fresh_dir() } else { None };
+    let paths = match &dir {
+        Some(d) => vec![format!("{d}/only.json")],
+        None => ctx.fresh_paths(datas.len()),
+    };
+    let res = check_file_fault_in(case, ctx, &datas, &paths, dir.as_deref(), class);
+    if let Some(d) = &dir {
+        let _ = std::fs::remove_dir_all(d);
+    }
+    res
+}
+
+fn check_file_fault_in(case: &Case, ctx: &mut Ctx, datas: &[Vec<u8>], paths: &[String], dir: Option<&str>, class: Class) -> Option<Violation> {
     let mut cfg = Cfg::plain();
-    cfg.files = datas.clone();
-    let f = try_spawn!(ctx, spawn_cfg(case, b"", &cfg, &paths, ctx));
+    cfg.files = datas.to_vec();
+    cfg.arg_dir = dir.map(str::to_string);
+    if dir.is_some() {
+        ctx.stats.probe("file argument reached through a directory argument");
+    }
+    let f = try_spawn!(ctx, spawn_cfg(case, b"", &cfg, paths, ctx));
     if f.timed_out {
         return viol("C20.hang", format!("fault-free child on {} files did not finish: {}", datas.len(), f.describe()));
     }
@@ -956,7 +995,7 @@ fn check_file_fault(case: &Case, ctx: &mut Ctx) -> Option<Violation> {
         return viol("C20.exit-fail", format!("fault-free child on files was killed by a signal: {}", f.describe()));
     }
     cfg.with_shim = true;
-    let r = try_spawn!(ctx, spawn_cfg(case, b"", &cfg, &paths, ctx));
+    let r = try_spawn!(ctx, spawn_cfg(case, b"", &cfg, paths, ctx));
     if r.timed_out {
         return viol("C20.hang", format!("child under file read faults did not finish within 20 s: {}", r.describe()));
     }
